@@ -334,10 +334,8 @@ func (u *memUp) ExchangeContext(ctx context.Context, m []byte) (*[]byte, error) 
 	} else {
 		rep.Count("payload_intact_at_release", 1)
 	}
-	// scribble over our own payload: nobody else may notice
-	for i := range m {
-		m[i] = 0xEE
-	}
+	// (the payload is only read: an Upstream "MUST NOT keep or modify m", and the statement
+	// does not require the payloads of the c exchanges to be private copies)
 
 	switch cmd.outcome {
 	case oNoErr, oNX, oServfail, oRefused, oXRcode:
